@@ -51,13 +51,21 @@ def gen(tier, rng):
         form = rand_os_form(rng, data)
         calls = []
         for _ in range(rng.randrange(1, 11)):
-            if rng.random() < 0.55:
+            x = rng.random()
+            if x < 0.45:
                 calls.append("r%d" % rng.choice([0, 1, 1, 2, 3, 4, 5, 8, 16, 100]))
-            else:
+            elif x < 0.75:
                 calls.append("a%d" % rng.choice([0, 1, 1, 2, 3, 100]))
+            elif x < 0.9:
+                calls.append("u")            # the provided take_opt_u8 (added after seeded change C16-7)
+            else:
+                calls.append("k%d" % rng.choice([0, 1, 2, 3, 7, 100]))   # the provided skip
         out.append("oss.calls ber %s %s" % (hx(form), " ".join(calls)))
         if rng.random() < 0.2:
             out.append("oss.calls der %s %s" % (hx(b"\x04" + length(len(data)) + data), " ".join(calls)))
+    for form in ("2480040261620400040163" "0000", "240b04026162040004016304 00".replace(" ", ""), "2480040004000401610000", "24800400240404000400040162" "0000"):
+        for calls in ("u u u u u", "r1 a1 u u u", "k1 u k1 u", "u k5 u", "r2 a2 u u"):
+            out.append("oss.calls ber %s %s" % (form, calls))
     return out
 
 def has_spec(r):
